@@ -204,11 +204,18 @@ first-match semantics (see the header). -/
 def Folder.twins (G : Folder) : Bool := !(G.files.map (·.name)).Nodup
 def Node.folderTwins (n : Node) : Bool := !(n.folders.map (·.name)).Nodup
 
-/-- Would this base operation restore by name in a place that has twins? -/
+/-- two LIVE files named `f` in a live folder named `F` (only `copy_file`'s `add_file(force=True)` can produce this): the
+by-name file operations of the model then reach both, the code the first -/
+def Node.liveTwins (n : Node) (F f : String) : Bool :=
+  n.folders.any (fun G => G.name = F && !G.deleted && decide ((G.files.filter (fun x => x.name = f && !x.deleted)).length ≥ 2))
+
+/-- Would this operation address by name a place where two items share the name in a way the model does not resolve like
+the code (first match)? -/
 def DNode.restoreAmbiguous (d : DNode) : DOp → Bool
   | .base (.fsRestoreFolder F) => d.n.folderTwins && d.n.folders.any (fun G => G.name = F)
   | .base (.fsRestoreFile F _) => d.n.folders.any (fun G => G.name = F && !G.deleted && G.twins)
   | .base .tick => d.n.folders.any (fun G => !G.deleted && G.restoreCd = 1 && G.twins)
+  | .base (.file F f _) | .base (.fsDeleteFile F f) | .base (.folderDelete F f) | .dbReplace F f _ => d.n.liveTwins F f
   | _ => false
 
 end Primaite.Health
